@@ -16,10 +16,14 @@ LEVEL_A = [
     dict(key='ident-empty', feats=['ident-empty'], allow=['prints-None', 'prints-repr'],
          what='an empty identifier part (written "" in the MindsDB dialect) is printed as `` (two back-quotes), which is a '
               'LexError: DROP AGENT a."" prints DROP AGENT a.``', site='ast/select/identifier.py parts_to_str (see KF-C04-7)'),
+    dict(key='key-empty-part', feats=['key-empty-part'], allow=['prints-repr', 'prints-None'],
+         what='a USING / SET parameter name with an empty part (`a."" = 1`) is kept as the string `a.`; printing goes through Identifier(key), which '
+              'drops the empty part: UPDATE SKILL a SET a."" = [] prints `SET a=[]` (fixes/C01_13.diff rejects the empty part)',
+         site='kw_parameter rule: key = ".".join(parts); utils.params_to_string'),
     dict(key='col-quoted', feats=['col-quoted'], allow=['str-quote', 'str-bs', 'str-nl', 'str-dquote'],
          kinds_extra={'reparse-fail': ['LexError', 'ParsingException', 'AssertionError'], 'tree-differs': ['']},
-         what='column names of an INSERT column list (and CREATE TABLE columns) are kept as plain strings and printed without quoting: '
-              'INSERT INTO a (`a b`) VALUES (1) prints INSERT INTO a(a b) VALUES (1)', site='ast/insert.py Insert.get_string, ast/create.py'),
+         what="a non-name column of an INSERT column list (variable, CASE expression — the sqlite / mysql grammars take result columns there) is kept as its printed text and back-quoted as if it were a name: INSERT INTO a (@'a b') SELECT a prints a(`@`a b``) (plain quoting of odd names was repaired in addc808)",
+         site='ast/insert.py Insert.column_to_str; insert rule `LPAREN result_columns RPAREN`'),
     dict(key='ident-noparts', feats=['ident-noparts'], allow=['str-quote', 'str-bs', 'str-nl', 'alias-dotted'],
          what='a double-quoted name made of dots only (MindsDB: "." used as alias or name) becomes an Identifier with no parts, which prints '
               'as nothing: SELECT a "." prints `SELECT a AS `', site='ast/select/identifier.py path_str_to_parts / Identifier.__init__'),
@@ -36,13 +40,11 @@ LEVEL_A = [
          what="a quoted @variable (@'a b', @`a b`, @\"a b\") is printed without its quotes (Variable.get_string = '@' + value): "
               "SELECT @`a b` prints SELECT @a b", site='ast/variable.py Variable.get_string'),
     dict(key='prints-repr', feats=['prints-repr'], allow=['prints-None'],
-         what='USING / SET parameter values that are identifiers, typed objects or nested nodes are printed with Python repr() / str(dict) '
-              '(`a=Identifier:<a>`, `Object(type=...)`): CREATE KNOWLEDGE_BASE a USING a = a, UPDATE AGENT/SKILL/CHATBOT ... SET a = a, '
-              'CREATE ML_ENGINE ... USING a = a', site='dialects/mindsdb/{agents,skills,chatbot,knowledge_base,create_ml_engine}.py get_string'),
+         what='EVALUATE ... USING prints its values with str(): a typed object prints `Object(type=..., params={params_str})` (the USING / SET lists of agents, skills, chatbots, knowledge bases, ML engines were repaired in 7cd7916)',
+         site='dialects/mindsdb/evaluate.py Evaluate.get_string'),
     dict(key='prints-None', feats=['prints-None'], allow=[],
-         what='an absent value is printed as the Python word None (NULL inside USING / SET values prints None; SHOW ENGINE prints '
-              '`SHOW ENGINE None`), which re-parses as an identifier / not at all (the CREATE AGENT `model=None` case was repaired in 8cbc399)',
-         site='parameter dict printing of dialects/mindsdb/*.py (repr of values), ast/show.py'),
+         what='an absent value is printed as the Python word None: SHOW ENGINE prints `SHOW ENGINE None`; EVALUATE ... USING a = [null] prints [None] (CREATE AGENT model=None repaired in 8cbc399, parameter lists in 7cd7916)',
+         site='ast/show.py Show.get_string; dialects/mindsdb/evaluate.py'),
     dict(key='interval', feats=['interval'], allow=['str-quote', 'str-bs', 'str-nl'],
          what="INTERVAL with a quoted amount that contains a blank / unit is re-split on printing: INTERVAL 'a b' a prints INTERVAL 'a' b a",
          site='ast/select/operation.py Interval'),
@@ -68,12 +70,10 @@ LEVEL_A = [
               'return the inner node without a flag): SELECT a EXCEPT (SELECT a EXCEPT SELECT *) is printed flat and re-read left-nested '
               '(Lean witness C01_witness_union)', site='`LPAREN union RPAREN` rule of dialects/mindsdb/parser.py; ast/select/union.py', fix='fixes/C01_5.diff'),
     dict(key='setop-parens', feats=['setop-nested'], allow=['nested-stmt'],
-         what='parentheses around a set operation used as a sub-query are dropped where the grammar needs them: CREATE TABLE a (SELECT a UNION SELECT *), '
-              'UPDATE a ON a FROM ((SELECT * INTERSECT SELECT a)), CREATE MODEL a PREDICT ((SELECT a UNION SELECT *)), CREATE KNOWLEDGE_BASE a FROM ((…))',
-         site='`LPAREN union RPAREN` rule; get_string of the enclosing statements', fix='fixes/C01_5.diff (all but CREATE KNOWLEDGE_BASE)'),
+         what='a doubly parenthesised set operation used as an expression / source loses one pair where the grammar needs both: CREATE MODEL a PREDICT ((SELECT a UNION SELECT *)), CREATE KNOWLEDGE_BASE a FROM ((SELECT a INTERSECT SELECT a)) (get_string of the inner query is used; the set-operation operand cases were repaired in bce2da8)',
+         site='dialects/mindsdb/knowledge_base.py (from_query.get_string()); expr rule `LPAREN select RPAREN`'),
     dict(key='nested-stmt', feats=['nested-stmt'], allow=[],
-         what='the grammars accept `( statement )` where a table is expected (INSERT INTO (SHOW …) …, DELETE FROM (INSERT …)); the nested statement is printed by '
-              'its own printer and inherits its findings (SHOW clauses dropped, INSERT with non-name columns crashes)',
+         what='the grammars accept `( statement )` where a table is expected (INSERT INTO (SHOW …) …); the nested statement is printed by its own printer and inherits its findings (SHOW clauses dropped / quotes not escaped)',
          site='from_table / table rules accepting `LPAREN query RPAREN` with `query` = any statement'),
 ]
 
@@ -91,7 +91,12 @@ EXTRA = [('mindsdb', 'SELECT a "."'), ('mindsdb', 'CREATE AGENT a USING a = 1'),
          ('mysql', 'SELECT a "a`a"'), ('sqlite', 'INSERT INTO a ( `B""` ) VALUES ( 1 )')]
 
 
-FIXED = {'KF-C01-1': 'fa4fc42', 'KF-C01-6': '6a738d8', 'KF-C01-11': '2843e02', 'KF-C01-12': '2843e02', 'KF-C01-13': '5eca6b1'}
+FIXED = {'KF-C01-1': 'fa4fc42', 'KF-C01-6': '6a738d8', 'KF-C01-11': '2843e02', 'KF-C01-12': '2843e02', 'KF-C01-13': '5eca6b1',
+         'KF-C01-3': 'addc808', 'KF-C01-5': '4373848', 'KF-C01-7': '7cd7916', 'KF-C01-14': 'edb99ae', 'KF-C01-17': 'edb99ae',
+         'KF-C01-20': 'edb99ae', 'KF-C01-24': 'bce2da8', 'KF-C01-25': 'edb99ae', 'KF-C01-26': 'edb99ae', 'KF-C01-27': 'bce2da8',
+         'KF-C01-28': 'edb99ae', 'KF-C01-29': 'edb99ae', 'KF-C01-31': 'bce2da8', 'KF-C01-32': 'edb99ae', 'KF-C01-33': '7cd7916',
+         'KF-C01-34': '7cd7916', 'KF-C01-35': '7cd7916', 'KF-C01-37': '7cd7916', 'KF-C01-40': 'bce2da8', 'KF-C01-41': 'bce2da8',
+         'KF-C01-42': '4373848', 'KF-C01-16': 'bce2da8', 'KF-C01-22': '?', 'KF-C01-39': '?'}
 FIXED_NEW = [dict(property='C01', status='fixed', commit='8cbc399',
                   what='fixed: property=C01 8cbc399 CREATE AGENT without a model printed `USING model=None, ...`, which was read back as the '
                        'identifier None (print-unstable): CREATE AGENT a USING a = 1',
